@@ -461,11 +461,19 @@ fn put_urls(o: &mut Vec<Z>, r: &mut Rng, plain: bool) {
     if plain {
         put_bytes(o, pick(r, REDIS_URLS).as_bytes());
     } else {
-        let n = r.below(4);
+        // three shapes: all well-formed / all well-formed but one (the single malformed entry must still
+        // be reported, also when it is empty or the last one) / anything
+        let mode = r.weighted(&[40, 30, 30]);
+        let n = if mode == 1 { 2 + r.below(2) } else { r.below(4) };
         o.push(n as Z);
-        let good = r.chance(50);
-        for _ in 0..n {
-            let u = if good { *pick(r, &REDIS_URLS[..3]) } else { *pick(r, REDIS_URLS) };
+        let odd_one = r.below(n.max(1));
+        for i in 0..n {
+            let u = match mode {
+                0 => *pick(r, &REDIS_URLS[..3]),
+                1 if i == odd_one => *pick(r, &["", "redis://", "http://x/", "redis://host:notaport/"]),
+                1 => *pick(r, &REDIS_URLS[..3]),
+                _ => *pick(r, REDIS_URLS),
+            };
             put_bytes(o, u.as_bytes());
         }
     }
